@@ -142,11 +142,23 @@ func runC01(c *Ctx) {
 				}
 				return 0
 			})
+			// a pinned TOC digest wins over the skip label: the label-driven skip lies behind the "no TOC digest label" edge
+			noToc := condEdges(f, func(cond ssa.Value) int {
+				if e, ok := cond.(*ssa.Extract); ok && e.Index == 1 {
+					if lk, ok := e.Tuple.(*ssa.Lookup); ok {
+						if key, ok := constString(lk.Index); ok && key == c.constVal("estargz", "TOCJSONDigestAnnotation") {
+							return -1
+						}
+					}
+				}
+				return 0
+			})
 			ok1, _ := mustPass(f, s, newCuts().addEdges(dis))
 			ok2a, _ := mustPass(f, s, newCuts().addEdges(allow))
 			ok2b, _ := mustPass(f, s, newCuts().addEdges(lbl))
-			good := (ok1 && len(dis) > 0) || (ok2a && ok2b && len(allow) > 0 && len(lbl) > 0)
-			c.verdict(c.fnKey(f)+":SkipVerify-gate", s.Pos(), good, "SkipVerify only when verification is disabled by configuration or the skip label is present and allowed", "SkipVerify reachable without the configuration gate: unverified layers get mounted")
+			ok2c, _ := mustPass(f, s, newCuts().addEdges(noToc))
+			good := (ok1 && len(dis) > 0) || (ok2a && ok2b && ok2c && len(allow) > 0 && len(lbl) > 0 && len(noToc) > 0)
+			c.verdict(c.fnKey(f)+":SkipVerify-gate", s.Pos(), good, "SkipVerify only when verification is disabled by configuration, or the skip label is present, allowed, and no TOC digest is pinned", "SkipVerify reachable without the configuration gate, or although a TOC digest label is present: unverified layers get mounted")
 			if good {
 				k.addInstr(s)
 			}
@@ -516,19 +528,63 @@ func runC01(c *Ctx) {
 			verEdges = append(verEdges, boolEdges(f, ci.Value(), true)...)
 		}
 		// recorded failures under RLock with prohibit read false
-		notProhibited := condEdges(f, func(cond ssa.Value) int {
-			if fa, ok := isFieldLoad(cond, vr, "prohibitVerifyFailure"); ok && fa != nil {
-				return -1
+		qualifiedRecs := func(g *ssa.Function) []ssa.Instruction {
+			notProhibited := condEdges(g, func(cond ssa.Value) int {
+				if fa, ok := isFieldLoad(cond, vr, "prohibitVerifyFailure"); ok && fa != nil {
+					return -1
+				}
+				return 0
+			})
+			var out []ssa.Instruction
+			for _, ci := range callsIn(g, idIs(rp+".(*VerifiableReader).storeLastVerifyErr")) {
+				held := c.locksAt(ci)["vr.prohibitVerifyFailureMu"] != lockNone
+				okp, _ := mustPass(g, ci, newCuts().addEdges(notProhibited))
+				// the very first unconditional store (retErr) is not part of the handshake
+				if held && okp {
+					out = append(out, ci)
+				}
 			}
-			return 0
-		})
-		var recs []ssa.Instruction
-		for _, ci := range callsIn(f, idIs(rp+".(*VerifiableReader).storeLastVerifyErr")) {
-			held := c.locksAt(ci)["vr.prohibitVerifyFailureMu"] != lockNone
-			okp, _ := mustPass(f, ci, newCuts().addEdges(notProhibited))
-			// the very first unconditional store (retErr) is not part of the handshake
-			if held && okp {
-				recs = append(recs, ci)
+			return out
+		}
+		recs := qualifiedRecs(f)
+		// a helper of the same type that returns true only after such a recording (and false only when failures are
+		// prohibited) stands for the handshake: its true edge is a recording, its false edge the prohibited edge
+		var recEdges, helperProhibited []edge
+		for _, ci := range callsIn(f, func(id string, ci ssa.CallInstruction) bool {
+			h := staticFn(ci)
+			return h != nil && h != f && h.Pkg == f.Pkg && len(h.Blocks) > 0 && h.Signature.Results().Len() == 1 && h.Signature.Results().At(0).Type().String() == "bool"
+		}) {
+			h := staticFn(ci)
+			hr := qualifiedRecs(h)
+			if len(hr) == 0 {
+				continue
+			}
+			prohibitedH := condEdges(h, func(cond ssa.Value) int {
+				if fa, ok := isFieldLoad(cond, vr, "prohibitVerifyFailure"); ok && fa != nil {
+					return 1
+				}
+				return 0
+			})
+			okH := true
+			for _, r := range realReturns(h) {
+				for _, rv := range retVals(r, 0) {
+					switch {
+					case isConstBool(rv, true):
+						if o, _ := mustPass(h, r, newCuts().addInstr(hr...)); !o {
+							okH = false
+						}
+					case isConstBool(rv, false):
+						if o, _ := mustPass(h, r, newCuts().addEdges(prohibitedH)); !o || len(prohibitedH) == 0 {
+							okH = false
+						}
+					default:
+						okH = false
+					}
+				}
+			}
+			if okH && ci.Value() != nil {
+				recEdges = append(recEdges, boolEdges(f, ci.Value(), true)...)
+				helperProhibited = append(helperProhibited, boolEdges(f, ci.Value(), false)...)
 			}
 		}
 		// the data written is teed into the verifier
@@ -555,7 +611,7 @@ func runC01(c *Ctx) {
 			impl = resultImplications(vcallInstr)
 		}
 		for _, cm := range commits {
-			got, path := reachPS(f, nil, isInstr(cm), newCuts().addEdges(verEdges).addInstr(recs...), impl)
+			got, path := reachPS(f, nil, isInstr(cm), newCuts().addEdges(verEdges).addEdges(recEdges).addInstr(recs...), impl)
 			okp := got == nil
 			c.verdict(c.fnKey(f)+":commit-gate", cm.Pos(), okp && len(verEdges) > 0, "Commit only after Verified() or after a failure was recorded before the verification decision", "prefetch commits a chunk that failed (or skipped) verification without recording it for VerifyTOC: "+c.pathStr(f, path))
 		}
@@ -569,6 +625,7 @@ func runC01(c *Ctx) {
 			}
 			return 0
 		})
+		prohibited = append(prohibited, helperProhibited...)
 		for _, e := range prohibited {
 			blk := f.Blocks[e.from].Succs[e.succ]
 			first := blk.Instrs[0]
@@ -702,6 +759,93 @@ func runC01(c *Ctx) {
 			}
 		}
 		c.verdict(c.fnKey(f)+":tocDigest-of-spooled-stream", f.Pos(), good, "DB store: digest of the very stream spooled to the file that initNodes parses", "DB store digest does not cover the stream that is parsed")
+	}
+	clauseKeyInjective(c, "C01.g", [][2]string{{"fs/reader", "genID"}})
+
+	// ---------- C01.h ----------
+	c.clause("C01.h", "T1", "a metadata reader re-opened from another byte source (Clone, used by background fetch) is handed out only after its TOC digest was compared equal to that of the reader it was cloned from: chunk digests are taken from the metadata reader, so its TOC must be the verified one", 1)
+	const mm = "metadata/memory"
+	for _, f := range c.pkgFuncs(mm) {
+		if f.Name() == "NewReader" || f.Parent() != nil {
+			continue
+		}
+		opens := callsIn(f, idIs("estargz.Open"))
+		if len(opens) == 0 {
+			continue
+		}
+		// equality of two TOCDigest() results
+		eq := condEdges(f, func(cond ssa.Value) int {
+			b, ok := cond.(*ssa.BinOp)
+			if !ok || (b.Op != token.EQL && b.Op != token.NEQ) {
+				return 0
+			}
+			isTD := func(v ssa.Value) bool {
+				call, ok := stripConv(v).(*ssa.Call)
+				if !ok {
+					return false
+				}
+				id := calleeID(call)
+				return strings.HasSuffix(id, ".TOCDigest")
+			}
+			if isTD(b.X) && isTD(b.Y) && stripConv(b.X) != stripConv(b.Y) {
+				if b.Op == token.EQL {
+					return 1
+				}
+				return -1
+			}
+			return 0
+		})
+		for _, r := range realReturns(f) {
+			if !returnsNilError(r) {
+				continue
+			}
+			okp, path := mustPass(f, r, newCuts().addEdges(eq))
+			c.verdict(c.fnKey(f)+":reopened-toc-compared", r.Pos(), okp && len(eq) > 0, "re-opened reader returned only when its TOC digest equals the original's", "a reader re-parsed from other bytes is returned without comparing its TOC digest with the verified one: background fetch takes chunk digests from an unverified TOC and caches altered chunks as verified: "+c.pathStr(f, path))
+		}
+	}
+
+	// ---------- C01.i ----------
+	c.clause("C01.i", "T1", "a reader that was handed out without verification (SkipVerify) is never upgraded to a verified reader over the same chunk cache", 1)
+	if sk, vt2 := c.mustFn("fs/reader", "(*VerifiableReader).SkipVerify"), c.mustFn("fs/reader", "(*VerifiableReader).VerifyTOC"); sk != nil && vt2 != nil {
+		// SkipVerify records that it was called (a store to a field of the receiver), VerifyTOC succeeds only on the edge
+		// where that field is false
+		var flags []string
+		eachInstr(sk, func(i ssa.Instruction) {
+			if st, ok := i.(*ssa.Store); ok {
+				if fa, ok := st.Addr.(*ssa.FieldAddr); ok && isConstBool(st.Val, true) {
+					flags = append(flags, fieldName(fa))
+				}
+			}
+		})
+		good := false
+		for _, fl := range flags {
+			notSkipped := condEdges(vt2, func(cond ssa.Value) int {
+				if _, ok := isFieldLoadAny(cond, fl); ok {
+					return -1
+				}
+				for _, rv := range reachingVals(cond) {
+					if _, ok := isFieldLoadAny(rv, fl); ok {
+						return -1
+					}
+				}
+				return 0
+			})
+			if len(notSkipped) == 0 {
+				continue
+			}
+			all := true
+			for _, r := range realReturns(vt2) {
+				if returnsNilError(r) {
+					if o, _ := mustPass(vt2, r, newCuts().addEdges(notSkipped)); !o {
+						all = false
+					}
+				}
+			}
+			if all {
+				good = true
+			}
+		}
+		c.verdict(c.fnKey(vt2)+":no-upgrade-after-skip", vt2.Pos(), good, "VerifyTOC refuses a reader that was already used without verification", "VerifyTOC succeeds on a reader that SkipVerify handed out before: chunks cached unverified in between are served to the verified reader from the shared chunk cache")
 	}
 	c.assume("digest.Verifier.Verified() is true only if the bytes written hash to the digest; cached bytes are only those written through cache.Writer")
 	c.assume("bytes obtained on a cache hit were verified when they were cached (only verified buffers reach the cache while reader.verify is set)")
